@@ -98,10 +98,11 @@ pub fn pattern(pool_index: usize) -> String {
 pub fn out_file(i: usize) -> String {
     // neighbours are often spellings of one path (./x and x, a//b and a/b, case variants): a run
     // draws a window of consecutive names, so aliases of one file co-occur
-    const NAMES: [&str; 24] = [
+    // (/dev/stdout, /dev/fd/1 and /proc/self/fd/1 are the scan's own standard output under other names)
+    const NAMES: [&str; 27] = [
         "out.txt", "./out.txt", "OUT.TXT", "list0", "/tmp/out.txt", "/tmp//out.txt", "big.lst", "./big.lst",
         "/var/tmp/scan/list.0", "user_files.txt", "./rel.out", "rel.out", "r-2.out", "sub/dir.lst", "sub//dir.lst",
-        "sub/./dir.lst", "/tmp/out.txt.1", "../up.txt", "F", "f", "/dev/stdout", "/x", "//x", "x",
+        "sub/./dir.lst", "/tmp/out.txt.1", "../up.txt", "F", "f", "/dev/stdout", "/dev/fd/1", "/proc/self/fd/1", "/dev/stderr", "/x", "//x", "x",
     ];
     NAMES[i % NAMES.len()].to_string()
 }
